@@ -1934,19 +1934,13 @@ func zoneBounds(emit func(string)) {
 		off = int64(o)
 		for ei, ev := range events {
 			text := cal(gcomp{name: "VEVENT", props: ev}).text()
-			// events 0, 2 and 7 state their times with Z or a TZID: no zone of the query matters
-			zoneFree := ei == 0 || ei == 2 || ei == 7
+			// (events 0, 2 and 7 state their times with Z or a TZID: no zone of the query matters; for
+			// the others also the ranges with one bound absent count: the zero time.Time that
+			// stands for it is in UTC, the zone of the range is that of the bound it has)
+			_ = ei
 			// the grid moved so that it lies around the local readings as well
 			for _, base := range []int64{gridBase, gridBase - off, dayBase - off - 3600} {
 				for _, tr := range gridRanges(base, 3600) {
-					if !zoneFree && (tr.s.IsZero() || tr.e.IsZero()) {
-						// match.go takes the zone for DTSTART from the start and the zone for DTEND
-						// from the end of the range; an absent bound is the zero time.Time, whose zone
-						// is UTC: with one bound absent a floating or DATE value is read in two
-						// different zones (notes/C06.md, "Generator audit") - outside the assumption
-						// that the bounds are UTC, not explored
-						continue
-					}
 					f := eventFilter(tr)
 					if ev[0].name == "DTSTAMP" {
 						f = CFn("VCALENDAR", false, nil, []caldav.CompFilter{{Name: "VEVENT", Props: []caldav.PropFilter{{Name: "DTSTAMP", Start: tr.s, End: tr.e}}}})
